@@ -32,6 +32,7 @@ DUMMY = 'rogw/tranp/app/dummy.py'
 
 def run(rep: Report, tier: str) -> None:
 	idx = SourceIndex()
+	rule_version_constants(rep, idx)
 	h, t, tr, pv = idx.mod(HEADER), idx.mod(TYPES), idx.mod(TRANSPILE), idx.mod(PROVIDER)
 	rep.consulted(HEADER, TYPES, TRANSPILE, PROVIDER, PY2CPP)
 	mh = h.cls('MetaHeader')
@@ -193,6 +194,27 @@ def run(rep: Report, tier: str) -> None:
 			rb.check(bool(closing) and sum(t for k, t in _sum_terms(up) if k == 'const' and isinstance(t, int)) == 1, 'line-bounded', try_from.where, f'the JSON slice must end just after the last `}}` before the end of the header line: `{unparse(up)[:160]}`')
 		else:
 			rb.skip('line-bounded', try_from.where, 'the JSON slice is no longer bounded by the first line break after the tag')
+	# an output whose header line cannot be decoded (file cut off, a key missing) has NO header: try_from_content must answer None for it, like for a
+	# missing tag, so that the module is regenerated — a decode error that escapes aborts the non-forced run while a forced run succeeds
+	pmap = parent_map(try_from.node)
+	decodes = [c_ for c_ in walk_no_nested(try_from.node) if isinstance(c_, ast.Call) and isinstance(c_.func, ast.Attribute) and c_.func.attr in ('from_json', 'loads')]
+	if not decodes:
+		rb.skip('damaged-header-is-no-header', try_from.where, 'try_from_content no longer calls from_json / json.loads')
+	for c_ in decodes:
+		caught: set[str] = set()
+		cur = c_
+		while id(cur) in pmap:
+			par = pmap[id(cur)]
+			if isinstance(par, ast.Try) and any(cur is s_ for s_ in par.body):
+				for h in par.handlers:
+					names = ['BaseException'] if h.type is None else [unparse(x).split('.')[-1] for x in (h.type.elts if isinstance(h.type, ast.Tuple) else [h.type])]
+					returns_none = any(isinstance(x, ast.Return) and (x.value is None or (isinstance(x.value, ast.Constant) and x.value.value is None)) for x in ast.walk(h))
+					if returns_none:
+						caught |= set(names)
+			cur = par
+		decode_ok = bool(caught & {'ValueError', 'JSONDecodeError', 'Exception', 'BaseException'})
+		key_ok = bool(caught & {'KeyError', 'LookupError', 'Exception', 'BaseException'})
+		rb.check(decode_ok and key_ok, 'damaged-header-is-no-header', (HEADER, c_.lineno), f'`{unparse(c_)[:60]}` runs outside a handler that answers None for ' + ('an undecodable text' if not decode_ok else 'a header that lacks a key') + f' (caught and turned into None: {sorted(caught)}): an output file whose header line is cut off makes the non-forced run stop with the decode error and write nothing, while `run -f` regenerates it — files_after(run) != files_after(run -f)', unparse(c_)[:100])
 	tm = TemplateModel()
 	ep = 'block/entrypoint'
 	rep.consulted(tm.relpath(ep))
@@ -449,3 +471,44 @@ def rule_decision(rb, ct) -> None:
 	bad_differs = [(k, v) for k, v in table.items() if k[0] and k[1] and v is not True]
 	rb.check(not bad_differs, 'compare', ct.where, f'can_transpile must answer True when the regenerated header differs from the old one: answers {bad_differs[0][1] if bad_differs else ""} (other conditions: {show(bad_differs[0][0][2]) if bad_differs else ""})')
 	rb.check(not never_skips, 'decision:unchanged-left-untouched', ct.where, 'can_transpile never answers False for a module whose recorded header equals the regenerated one: every run rewrites every output')
+
+
+def rule_version_constants(rep: Report, idx: SourceIndex) -> None:
+	"""The header records two versions — the application's and the transpiler's — so that a release of either regenerates every output. Each constant of
+	data/version.py stands for one of them; a constant that no producer of a header field reads is a version whose bump changes no header (every
+	output stays stale on a non-forced run, and a forced run records the old value again), and two header fields fed from ONE constant cannot tell the
+	two releases apart."""
+	r = rep.rule('C06/version-constants-recorded', 'every constant of Versions is read by a producer of a header field (MetaHeader for the application, ITranspiler.meta for the transpiler), and no two producers read the same one', floor=2)
+	vm = idx.mod('rogw/tranp/data/version.py')
+	vc = vm.cls('Versions')
+	if vc is None:
+		r.skip('Versions', (vm.relpath, 1), 'class Versions vanished')
+		return
+	consts = [k for k, v in vc.class_attrs.items() if isinstance(v, ast.Constant) and isinstance(v.value, str)]
+	readers: dict[str, list[str]] = {k: [] for k in consts}
+	for rel in idx.all_py(('rogw',)):
+		if rel.startswith('rogw/tranp/test/') or rel == vm.relpath:
+			continue
+		m = idx.mod(rel)
+		for q, f in m.functions.items():
+			if '#' in q:
+				continue
+			for n in walk_no_nested(f.node):
+				if isinstance(n, ast.Attribute) and isinstance(n.value, ast.Name) and n.value.id == 'Versions' and n.attr in readers:
+					readers[n.attr].append(f'{rel}:{q}')
+	if not consts:
+		r.skip('Versions', vc.where, 'Versions declares no string constant')
+	for k in consts:
+		r.check(bool(readers[k]), f'Versions.{k}:recorded', vc.where, f'Versions.{k} is read nowhere: a release that bumps it changes no header, so a non-forced run regenerates nothing (and a forced run records the old value again) — files_after(run) != files_after(run -f) after the upgrade; the other constants are read by {dict((c, v[:1]) for c, v in readers.items() if v)}')
+	by_site: dict[str, list[str]] = {}
+	for k, sites in readers.items():
+		for s_ in sites:
+			by_site.setdefault(s_, []).append(k)
+	producers = sorted({s_ for sites in readers.values() for s_ in sites})
+	for k in consts:
+		prod = {s_ for s_ in readers[k] if s_.endswith('.meta') or s_.startswith(('rogw/tranp/data/meta/', 'rogw/tranp/providers/module.py'))}  # printing a version (--version) is not recording it
+		if len(prod) > 1:
+			r.violate(f'Versions.{k}:one-producer', vc.where, f'Versions.{k} feeds {len(prod)} header producers ({sorted(prod)}): the application and the transpiler version of the header are then the same constant, and a release of one of them alone is not seen', str(sorted(set(readers[k]))))
+		elif readers[k]:
+			r.ok(f'Versions.{k}:one-producer', vc.where)
+	rep.extra_coverage['version_constant_readers'] = {k: sorted(set(v)) for k, v in readers.items()}
